@@ -197,6 +197,23 @@ def test_timeout():
     return bad + (0 if len(acc.viol) == 1 else 1)
 
 
+def test_crash():
+    """A worker that dies (SIGSEGV) is reported as a `crash` violation of
+    the case it was running; the other tasks still deliver."""
+    import importlib
+    from vlib import runner
+    mod = importlib.import_module('vlib.props.zz_selftest')
+    shards = mod.shards('quick', 0)
+    tasks = [shards[i::3] for i in range(3)]
+    res = list(runner.run_tasks('zz_selftest', mod, tasks, 2))
+    crashes = [v for r in res for v in r['viol']]
+    ok = (len(res) == 3 and len(crashes) == 1 and
+          crashes[0]['kind'] == 'crash' and
+          crashes[0]['case'] == dict(n=4, k=1) and
+          sum(r["evals"] for r in res) == 6 + 6 + 1)
+    return 0 if ok else 1
+
+
 def main():
     rnd = random.Random(int(os.environ.get('VERIF_SEED', '0')))
     res = dict(
@@ -204,6 +221,7 @@ def main():
         determinacy=test_determinacy(rnd),
         c99_division=test_fmodel(rnd),
         case_timeout_is_cpu_time=test_timeout(),
+        dying_worker_is_reported=test_crash(),
         scc_criterion_vs_spin=test_spin(rnd))
     for k, v in res.items():
         print(f'{k}: ' + ('skipped (tool missing)' if v is None
